@@ -43,10 +43,13 @@ Record opts := mkOpts {
   lt : bytes         (* LINES TERMINATED BY *)
 }.
 
-Inductive val := VNull | VInt (z : Z) | VStr (s : bytes).
-Inductive colty := TInt | TText.   (* BIGINT / TEXT: types.IsText is true exactly for TText *)
+(* VRaw txt: any other Go value (decimal, time.Time, []byte ...), given by what fmt's %v prints for it (Codec/C50Fmt.v
+   computes that text for DECIMAL, DATE, DATETIME and BLOB values) *)
+Inductive val := VNull | VInt (z : Z) | VStr (s : bytes) | VRaw (txt : bytes).
+(* BIGINT / TEXT / any other column type, with the answer of types.IsText for it *)
+Inductive colty := TInt | TText | TOther (textlike : bool).
 
-Definition is_text (t : colty) : bool := match t with TText => true | TInt => false end.
+Definition is_text (t : colty) : bool := match t with TText => true | TInt => false | TOther b => b end.
 
 (* ---------- fmt "%v" of an int64 ---------- *)
 Fixpoint to_digits_aux (fuel : nat) (n : N) (acc : bytes) : bytes :=
@@ -88,11 +91,12 @@ Definition content (o : opts) (v : val) : bytes :=
   | VNull => []
   | VInt z => render_Z z
   | VStr s => if is_nil (lt o) then s else replace_go (lt o) (esc o ++ lt o) s O
+  | VRaw t => t                                  (* not a Go string: no replacement *)
   end.
 
 (* "%v" of the value in the un-enclosed branch: no replacement at all *)
 Definition plain (v : val) : bytes :=
-  match v with VNull => [] | VInt z => render_Z z | VStr s => s end.
+  match v with VNull => [] | VInt z => render_Z z | VStr s => s | VRaw t => t end.
 
 Definition field (o : opts) (t : colty) (v : val) : bytes :=
   match v with
@@ -216,11 +220,12 @@ Definition to_val (t : colty) (f : option bytes) : option val :=
   match f with
   | None => Some VNull                                   (* too few fields: nullable column without default *)
   | Some s =>
-    if is_nil s then Some (if is_text t then VStr [] else VNull)
+    if is_nil s then (match t with TOther _ => None | _ => Some (if is_text t then VStr [] else VNull) end)
     else if bytes_eq s str_NULL then Some VNull
     else match t with
          | TText => Some (VStr s)
          | TInt => match parse_int s with Some z => Some (VInt z) | None => None end
+         | TOther _ => None                      (* conversion to the other column types is not modelled *)
          end
   end.
 
@@ -253,9 +258,55 @@ Fixpoint load_tokens (o : opts) (tys : list colty) (toks : list bytes) : option 
     end
   end.
 
-Definition load (o : opts) (tys : list colty) (data : bytes) : outcome :=
+(* IGNORE n LINES: loadDataIter.Next drops the first n scanner tokens before anything else looks at them *)
+Definition load_ignore (n : nat) (o : opts) (tys : list colty) (data : bytes) : outcome :=
   if is_nil (lt o) && negb (is_nil data) then NoTermination
-  else match load_tokens o tys (split_lines (S (length data)) (lt o) data) with
+  else match load_tokens o tys (skipn n (split_lines (S (length data)) (lt o) data)) with
+       | Some rows => Loaded rows
+       | None => ConvOutside
+       end.
+
+Definition load (o : opts) (tys : list colty) (data : bytes) : outcome := load_ignore 0 o tys data.
+
+(* LOAD DATA ... (col list): the i-th field goes to table column [nth i cols]; columns that are not listed get their
+   default (NULL for the generated tables); buildLoadData's fieldToColMap + inputPreprocessor without user variables *)
+Fixpoint index_in (j : nat) (cols : list nat) (i : nat) : option nat :=
+  match cols with
+  | [] => None
+  | c :: cs => if Nat.eqb c j then Some i else index_in j cs (S i)
+  end.
+
+Fixpoint build_row_cols (tys : list colty) (j : nat) (cols : list nat) (fields : list bytes) : option (list val) :=
+  match tys with
+  | [] => Some []
+  | t :: ts =>
+    let v := match index_in j cols 0 with
+             | None => Some VNull
+             | Some i => to_val t (nth_error fields i)
+             end in
+    match v, build_row_cols ts (S j) cols fields with
+    | Some v', Some r => Some (v' :: r)
+    | _, _ => None
+    end
+  end.
+
+Fixpoint load_tokens_cols (o : opts) (tys : list colty) (cols : list nat) (toks : list bytes) : option (list (list val)) :=
+  match toks with
+  | [] => Some []
+  | t :: ts =>
+    match parse_fields o t with
+    | None => load_tokens_cols o tys cols ts
+    | Some fs =>
+      match build_row_cols tys 0 cols fs, load_tokens_cols o tys cols ts with
+      | Some r, Some rs => Some (r :: rs)
+      | _, _ => None
+      end
+    end
+  end.
+
+Definition load_cols (n : nat) (o : opts) (tys : list colty) (cols : list nat) (data : bytes) : outcome :=
+  if is_nil (lt o) && negb (is_nil data) then NoTermination
+  else match load_tokens_cols o tys cols (skipn n (split_lines (S (length data)) (lt o) data)) with
        | Some rows => Loaded rows
        | None => ConvOutside
        end.
@@ -297,6 +348,7 @@ Definition val_typed (t : colty) (v : val) : bool :=
   | VNull, _ => true
   | VInt z, TInt => in_int64 z
   | VStr _, TText => true
+  | VRaw _, TOther _ => true
   | _, _ => false
   end.
 Fixpoint row_typed (tys : list colty) (r : list val) : bool :=
